@@ -25,19 +25,44 @@ def under(k: 'Str', root: 'Str') -> 'Bool':
     return k == root or k.startswith(root + '.')
 
 
-@opaque
+@reads('name', 'rootobjects')
+def first_root(system: 'Ref[System]', head: 'Str', i: 'Int') -> 'Int':
+    """index of the first root at or after i whose name is `head`; len(rootobjects) when there is none"""
+    if i < 0 or i >= len(system.rootobjects):
+        return len(system.rootobjects)
+    if system.rootobjects[i].name == head:
+        return i
+    return first_root(system, head, i + 1)
+
+
+def name_head(full_name: 'Str') -> 'Str':
+    return full_name.split('.', 1)[0]
+
+
+def name_rest(full_name: 'Str') -> 'Str':
+    # (only used for names with a dot: a name without one that is not registered cannot start with the name of a root)
+    return full_name.split('.', 1)[1]
+
+
+@reads('name', 'parent', 'contents', '_localNameToFullName_map', 'allobjects', 'rootobjects')
+def via_alias(system: 'Ref[System]', full_name: 'Str') -> 'RefN[Documentable]':
+    """the registry entry of the name obtained by expanding the rest of the name in the (first) root named by its first part"""
+    return system.allobjects.get(system.rootobjects[first_root(system, name_head(full_name), 0)].expandName(name_rest(full_name)))
+
+
 @reads('name', 'parent', 'contents', '_localNameToFullName_map', 'allobjects', 'rootobjects')
 def found(system: 'Ref[System]', full_name: 'Str') -> 'RefN[Documentable]':
-    """what System.find_object returns for the name when it does not raise"""
-    return system.find_object(full_name)
+    """what System.find_object returns for the name when it does not raise: the registry entry if there is one; nothing
+    for a name whose first part is not one of our roots (external); otherwise what the alias left at the old location leads to"""
+    if system.allobjects.get(full_name) is not None:
+        return system.allobjects.get(full_name)
+    if first_root(system, name_head(full_name), 0) >= len(system.rootobjects):
+        return None
+    return via_alias(system, full_name)
 
 
-@opaque
 @reads('name', 'parent', 'contents', '_localNameToFullName_map', 'allobjects', 'rootobjects')
 def lookup_fails(system: 'Ref[System]', full_name: 'Str') -> 'Bool':
-    """System.find_object raises LookupError for the name (the root is one of ours, the rest is unknown)"""
-    try:
-        system.find_object(full_name)
-    except LookupError:
-        return True
-    return False
+    """System.find_object raises LookupError for the name: the root is one of ours, the rest is unknown"""
+    return (system.allobjects.get(full_name) is None and first_root(system, name_head(full_name), 0) < len(system.rootobjects)
+            and via_alias(system, full_name) is None)
